@@ -333,5 +333,21 @@ def rule_n8(repo):
     return res
 
 
+def rule_n9(repo):
+    """Opening a binder replaces its bound variable by a fresh free variable.  Fresh means: different from
+    every variable of the two bodies *as they are now*, which contain the replacements chosen for the enclosing
+    binders.  A list of names taken once from the top-level terms misses those: %x. %x. g B1 B0 then matches
+    %a. %b. g b b."""
+    from ..fresh import fresh_sites
+    res = RuleResult('C09.N9', 'the replacement for a bound variable is chosen against the terms as they are when the binder is opened', floor=1)
+    n = 0
+    for f in repo.module('logic/matcher.py').all_funcs:
+        for c, avoid, how, ok, detail in fresh_sites(f):
+            n += 1
+            res.add('logic/matcher.py :: %s :: fresh(%s)' % (f.qualname, src(c.args[0], 30)), ok, detail, 'logic/matcher.py:%d' % c.lineno)
+    need(n >= 1, 'logic/matcher.py: no fresh-name site found')
+    return res
+
+
 def rules(repo):
-    return [rule_n1(repo), rule_n2(repo), rule_n3(repo), rule_n4(repo), rule_n5(repo), rule_n6(repo), rule_n7(repo), rule_n8(repo)]
+    return [rule_n1(repo), rule_n2(repo), rule_n3(repo), rule_n4(repo), rule_n5(repo), rule_n6(repo), rule_n7(repo), rule_n8(repo), rule_n9(repo)]
